@@ -62,7 +62,7 @@ let parse_h w =
              st = { h_type = type_of_char t; h_perm = n_of_int (int_of_string ("0o" ^ perm));
                     h_uid = n_of_int (int_of_string uid); h_gid = n_of_int (int_of_string gid);
                     h_mtime = z_of_int (int_of_string mtime); h_dev = n_of_u64 dev;
-                    h_ino = n_of_u64 ino; h_rdev = n_of_int (int_of_string rdev);
+                    h_ino = n_of_u64 ino; h_rdev = n_of_u64 rdev;
                     h_target = unhex tgt } } }
   | _ -> failwith "bad H line"
 
